@@ -80,7 +80,7 @@ class Session:
     # -- raw query
     def solve(self, cons, timeout_ms=None, tactic=None, label=''):
         z3 = z3mod()
-        s = z3.Solver() if tactic is None else z3.Tactic(tactic).solver()
+        s = z3.Solver() if tactic is None else (z3.Then(*tactic).solver() if isinstance(tactic, (tuple, list)) else z3.Tactic(tactic).solver())
         s.set('timeout', int(timeout_ms or self.timeout_ms))
         for c in cons:
             s.add(c)
